@@ -16,9 +16,9 @@ import (
 	"fmt"
 	"math/big"
 	"runtime"
-	"sync"
 	"strconv"
 	"strings"
+	"sync"
 	"time"
 
 	"github.com/tdewolff/minify/v2"
@@ -266,15 +266,16 @@ type c08Case struct {
 }
 
 type c08Batch struct {
-	c      *Ctx
-	st     *h.Stage
-	cases  []c08Case
-	limit  int
-	err    error
-	known  []h.KnownEntry
-	nontrv func(cs *c08Case) bool
-	ndiff  map[string]int
-	busy   chan struct{}
+	c                           *Ctx
+	st                          *h.Stage
+	cases                       []c08Case
+	limit                       int
+	err                         error
+	known                       []h.KnownEntry
+	nontrv                      func(cs *c08Case) bool
+	ndiff                       map[string]int
+	distinct                    bool // cases are pairwise distinct by construction (enumeration)
+	busy                        chan struct{}
 	tImpl, tLines, tEval, tPost time.Duration
 }
 
@@ -375,7 +376,12 @@ func (b *c08Batch) process(cases []c08Case) {
 		return
 	}
 	t3 := time.Now()
-	defer func() { b.tImpl += t1.Sub(t0); b.tLines += t2.Sub(t1); b.tEval += t3.Sub(t2); b.tPost += time.Since(t3) }()
+	defer func() {
+		b.tImpl += t1.Sub(t0)
+		b.tLines += t2.Sub(t1)
+		b.tEval += t3.Sub(t2)
+		b.tPost += time.Since(t3)
+	}()
 	// the math/big oracle is evaluated in parallel (pure function of the case)
 	omasks := make([]int, len(cases))
 	{
@@ -396,8 +402,20 @@ func (b *c08Batch) process(cases []c08Case) {
 	}
 	for i := range cases {
 		cs := &cases[i]
-		key := c08Name(cs.dec) + "(" + string(cs.in) + "," + strconv.Itoa(cs.prec) + ")"
-		b.st.Count(key, b.nontrv(cs))
+		if b.distinct {
+			// enumerated stages: every (function, lexeme, precision) occurs once by construction, so the
+			// distinct-non-trivial count needs no key set (which would hold ~10^8 strings in the thorough tier)
+			b.st.Evaluations++
+			nt := b.nontrv(cs)
+			if nt {
+				b.st.Nontrivial++
+			}
+			if len(b.st.Samples) < 6 && (nt || b.st.Evaluations < 3) {
+				b.st.Samples = append(b.st.Samples, c08Name(cs.dec)+"("+string(cs.in)+","+strconv.Itoa(cs.prec)+")")
+			}
+		} else {
+			b.st.Count(c08Name(cs.dec)+"("+string(cs.in)+","+strconv.Itoa(cs.prec)+")", b.nontrv(cs))
+		}
 		mk := func(kind, what string) h.Finding {
 			cfg := fmt.Sprintf("func=%s prec=%d", c08Name(cs.dec), cs.prec)
 			return h.Finding{Stage: b.st.Name, Kind: kind, What: what, Input: h.Q(cs.in), Hex: h.Hex(cs.in), Config: cfg, Impl: h.Q(cs.out), Seed: b.c.Seed}
@@ -694,20 +712,25 @@ func init() {
 		// ---- stage 1: exhaustive grammar enumeration ----
 		{
 			maxLen := c.N(7, 9) // in search mode the quick tier keeps the bound but runs every precision
-			st := c.R.StartStage("enum-grammar", fmt.Sprintf("every string of [+-]?(d+.?d*|.d+)([eE][+-]?d+)? with d in {0,1,4,5,9} up to length %d (Decimal: those without exponent part), precisions: quick tier = 0 always, all of 1..#mantissa digits+1 for lexemes shorter than the bound and two of them (rotating) at the bound, all of -1..20 on every 8th shorter lexeme; thorough tier = all of -1..20; non-trivial = output differs from input", maxLen))
+			st := c.R.StartStage("enum-grammar", fmt.Sprintf("every string of [+-]?(d+.?d*|.d+)([eE][+-]?d+)? with d in {0,1,4,5,9} up to length %d (Decimal: those without exponent part), precisions by lexeme length: at the bound 0 and two of 1..#mantissa digits+1 (rotating); at bound-1 0 and all of 1..#digits+1; below that additionally all of -1..20 (thorough tier: for every lexeme, quick tier: for every 8th); non-trivial = output differs from input", maxLen))
 			st.Exhaustive = true
 			b := newBatch(st)
+			b.distinct = true
 			cnt := 0
 			c08Grammar(maxLen, "01459", func(s []byte, hasExp bool, nd int) {
 				cnt++
 				for _, p := range precs {
-					use := p == 0 || c.Thorough() || c.Search
-					if !use && p >= 1 && p <= nd+1 {
-						// quick tier: lexemes of the maximal length get two of the precisions 1..nd+1 (rotating), shorter ones all
-						use = len(s) < maxLen || p == 1+cnt%(nd+1) || p == 1+(cnt/7+3)%(nd+1)
-					}
-					if !use && len(s) < maxLen && cnt%8 == 0 {
-						use = true
+					// precision schedule by lexeme length: up to bound-2 every precision -1..20 (thorough or search;
+					// quick: 0, 1..digits+1, and all of them on every 8th lexeme); bound-1: 0 and 1..digits+1;
+					// at the bound: 0 and two of 1..digits+1 (rotating).  Search mode runs everything below the bound fully.
+					use := p == 0
+					switch {
+					case len(s) <= maxLen-2 || (c.Search && len(s) < maxLen):
+						use = use || c.Thorough() || c.Search || (p >= 1 && p <= nd+1) || cnt%8 == 0
+					case len(s) == maxLen-1:
+						use = use || (p >= 1 && p <= nd+1)
+					default:
+						use = use || (p >= 1 && p <= nd+1 && (p == 1+cnt%(nd+1) || p == 1+(cnt/7+3)%(nd+1)))
 					}
 					if !use {
 						continue
@@ -732,6 +755,7 @@ func init() {
 			st := c.R.StartStage("enum-raw", "every string (grammatical or not) over {0,1,5,9,.,e,-,+} up to length 5, all precisions -1..20, Number and Decimal: no panic / no out-of-slice access is demanded only for grammatical inputs, model = implementation for all non-panicking inputs; non-trivial = grammatical and output differs from input")
 			st.Exhaustive = true
 			b := newBatch(st)
+			b.distinct = true
 			al := "0159.e-+"
 			var rec func(prefix []byte)
 			rec = func(prefix []byte) {
